@@ -271,4 +271,73 @@ theorem loop_op_closed (n : Nat) (i : Option Action) (t : String) (b : Action) (
   rw [loopIter_closed n t b p k _ m h hm]
   simp [wrap]
 
+/-! ## the closed form of ForEachOp.Do's iteration -/
+
+/-- performWithItem for the item `it`, resolved against the current data, with fuel `n` -/
+def itemRes (n : Nat) (v : String) (b : Action) (it : ItemE) (st : St) : Res :=
+  run n (.item v b (it.resolve st.data)) st
+
+/-- the state after iterating over `its` -/
+def itemsSt (n : Nat) (v : String) (b : Action) : List ItemE → St → St
+  | [], st => st
+  | it :: its, st => itemsSt n v b its (itemRes n v b it st).st
+
+/-- the concatenated traces of the iterations over `its` -/
+def itemsTrace (n : Nat) (v : String) (b : Action) : List ItemE → St → List Event
+  | [], _ => []
+  | it :: its, st => (itemRes n v b it st).tr ++ itemsTrace n v b its (itemRes n v b it st).st
+
+/-- every iteration over `its` ends without error -/
+def ItemsOk (n : Nat) (v : String) (b : Action) : List ItemE → St → Prop
+  | [], _ => True
+  | it :: its, st => (itemRes n v b it st).err = none ∧ ItemsOk n v b its (itemRes n v b it st).st
+
+theorem items_cons_eq (m : Nat) (v : String) (b : Action) (it : ItemE) (its : List ItemE) (st : St) :
+    run (m + 1) (.items v b (it :: its)) st =
+      (itemRes m v b it st).andThen fun st => run m (.items v b its) st := rfl
+
+/-- all iterations succeed: one trace per item, in item order, each iteration starting from the state the
+    previous one left -/
+theorem items_closed (n : Nat) (v : String) (b : Action) : ∀ (its : List ItemE) (st : St) (m : Nat),
+    ItemsOk n v b its st → n + its.length + 1 ≤ m →
+    run m (.items v b its) st = ⟨itemsTrace n v b its st, itemsSt n v b its st, none⟩
+  | [], st, m, _, hm => by
+    obtain ⟨m', rfl⟩ : ∃ m', m = m' + 1 := ⟨m - 1, by omega⟩
+    rfl
+  | it :: its, st, m, h, hm => by
+    obtain ⟨m', rfl⟩ : ∃ m', m = m' + 1 := ⟨m - 1, by omega⟩
+    simp only [List.length_cons] at hm
+    have e : itemRes m' v b it st = itemRes n v b it st := run_mono_ok (by omega) _ _ h.1
+    rw [items_cons_eq, e]
+    simp only [Res.andThen, h.1]
+    rw [items_closed n v b its _ m' h.2 (by omega)]
+    simp [itemsTrace, itemsSt]
+
+/-- the iteration at position `pre.length` fails: the traces of the items before it, then the failing
+    iteration's trace; its state and error are the result; no later item runs -/
+theorem items_failing (n : Nat) (v : String) (b : Action) (it : ItemE) (post : List ItemE) (e : Err)
+    (he : e ≠ .fuel) : ∀ (pre : List ItemE) (st : St) (m : Nat),
+    ItemsOk n v b pre st → (itemRes n v b it (itemsSt n v b pre st)).err = some e → n + pre.length + 1 ≤ m →
+    run m (.items v b (pre ++ it :: post)) st =
+      ⟨itemsTrace n v b pre st ++ (itemRes n v b it (itemsSt n v b pre st)).tr,
+        (itemRes n v b it (itemsSt n v b pre st)).st, some e⟩
+  | [], st, m, _, hf, hm => by
+    obtain ⟨m', rfl⟩ : ∃ m', m = m' + 1 := ⟨m - 1, by omega⟩
+    have hf' : (itemRes n v b it st).err = some e := hf
+    have e1 : itemRes m' v b it st = itemRes n v b it st :=
+      run_mono (by simp at hm; omega) _ _ (by
+        show (itemRes n v b it st).err ≠ some .fuel
+        rw [hf']; simpa using he)
+    rw [List.nil_append, items_cons_eq, e1]
+    simp only [Res.andThen, hf', itemsTrace, itemsSt, List.nil_append]
+    rw [← hf']
+  | p :: pre, st, m, h, hf, hm => by
+    obtain ⟨m', rfl⟩ : ∃ m', m = m' + 1 := ⟨m - 1, by omega⟩
+    simp only [List.length_cons] at hm
+    have e1 : itemRes m' v b p st = itemRes n v b p st := run_mono_ok (by omega) _ _ h.1
+    rw [List.cons_append, items_cons_eq, e1]
+    simp only [Res.andThen, h.1]
+    rw [items_failing n v b it post e he pre _ m' h.2 hf (by omega)]
+    simp [itemsTrace, itemsSt]
+
 end Ytk.Pipeline
